@@ -306,6 +306,12 @@ func oracleJSON(rec EncRec, payloads [][]byte) string {
 	if why := matchJSONMembers(exp, ms, "record"); why != "" {
 		return why
 	}
+	if callerNode != nil && rec.Cfg.NoPC {
+		if callerNode.Kind != "object" {
+			return "caller member of a record without a frame is not an object"
+		}
+		callerNode = nil
+	}
 	if callerNode != nil {
 		c := *callerNode
 		if c.Kind != "object" || len(c.Members) != 3 || !isStr(c.Members[0].Val, encCaller.File) ||
@@ -476,6 +482,11 @@ func runEncoder(r *Run, id, mode, corr string, p EncProfile, oracle func(EncRec,
 	if mode != "color" {
 		// values outside the model, direct oracle only: errors that carry their stack, with and without the caller field
 		direct := stackErrCorpus(mode)
+		if mode == "json" { // the caller flag on, no frame: still one JSON object
+			for _, as := range [][]GAttr{nil, {{Key: "a", Val: GVal{Kind: "int", I: 3}}}, {{Key: "g", Val: GVal{Kind: "group", Items: []GAttr{{Key: "x", Val: GVal{Kind: "int", I: 1}}}}}}} {
+				direct = append(direct, EncRec{EncCfg{Mode: "json", Level: 4, TagWidth: 3, MinWidth: 36, Caller: true, NoPC: true}, "no frame", as})
+			}
+		}
 		for _, rec := range valueGroupCorpus() {
 			rec.Cfg.Mode = mode
 			if mode == "logfmt" && strings.Contains(fmt.Sprint(rec.Attrs), "g\"q") {
